@@ -52,7 +52,10 @@ LineMeaning(ctx, line) ==
                                     env |-> ctx.env]
     [] line.form = "time_diff" ->
          LET z1 == ZoneOr(line.z, ctx.calc.tz)  z2 == ZoneOr(line.z2, ctx.calc.tz) IN
-         [slot |-> IF NoWrap(line.w, z1) /\ NoWrap(line.w2, z2) THEN DiffTime(line.w, z1, line.w2, z2) ELSE Unspec, env |-> ctx.env]
+         \* two times of one zone differ by the difference of their wall clocks, whatever the zone; across zones
+         \* the difference is only specified when neither time leaves the UTC day (one reading only)
+         [slot |-> IF z1.off = z2.off \/ (NoWrap(line.w, z1) /\ NoWrap(line.w2, z2)) THEN DiffTime(line.w, z1, line.w2, z2) ELSE Unspec,
+          env |-> ctx.env]
     [] line.form = "date_lit"  -> [slot |-> DateOperand(line.a, ctx.today), env |-> ctx.env]
     [] line.form = "date_shift" ->
          LET a == DateOperand(line.a, ctx.today) IN
@@ -81,6 +84,9 @@ LineMeaning(ctx, line) ==
     [] line.form = "unit_arith" -> [slot |-> UnitArith(line.l, line.op, line.r), env |-> ctx.env]
     [] line.form = "rule_line"  -> [slot |-> RuleLineMeaning(ctx.calc, ctx.lang, line), env |-> ctx.env]
     [] line.form = "fam_conv"   -> [slot |-> FamConvMeaning(ctx.calc, line), env |-> ctx.env]
+    \* a line the specification gives no meaning to, evaluated through execute: by C04 its result is determined by the
+    \* configuration, the text and the date only, i.e. it is what a fresh calculator returns for it
+    [] line.form = "opaque"  -> [slot |-> Baseline, env |-> ctx.env]
     [] line.form = "shape"   -> [slot |-> Unspec, env |-> ctx.env]
     [] OTHER                 -> [slot |-> Unspec, env |-> ctx.env]
 
